@@ -32,14 +32,21 @@ for i in range(1, 21):
                        + '; '.join(getattr(m, 'ASSUMPTIONS', []))),
         'technique': getattr(m, 'TECHNIQUE', 'static analysis: interprocedural dependence/dataflow + AST structural rules'),
     })
+import subprocess
+try:
+    log = subprocess.check_output(['git', '-C', '/repo', 'log', '--format=%h %s']).decode().splitlines()
+    fix_commits = [l for l in log if l.split(' ', 1)[1].startswith('fix:')][::-1]
+except Exception:
+    fix_commits = []
 man = {
     'version': 1,
     'setup_cmd': f'{PY} -m compileall -q sa && {PY} -m sa.selfcheck',
     'hooks': {
         'guard': 'RSATOOLBOX_VERIF',
-        'enable': 'none: the checks read the source tree; no hooks or instrumentation were added to /repo',
+        'enable': 'none: the checks read the source tree; no hooks or instrumentation were added to /repo '
+                  '(source_commits lists the unguarded `fix:` repairs of genuine defects)',
         'baseline_off_cmd': 'cd /repo && /venv/bin/python -m pytest -ra -q -p no:cacheprovider --timeout=900 --continue-on-collection-errors',
-        'source_commits': [],
+        'source_commits': fix_commits,
         'add_only': True,
     },
     'engines': [{
